@@ -138,6 +138,7 @@ def run(chk):
                         it = env.interp(max_paths=4096)
                         it.join_on_top = True
                         it.uf_fallback = True
+                        it.call_hooks = (cmp_kernel_hook(env.facts),)
                         if name == "bdd_complexity":
                             # the node-counting kernel (C07, not applicable) stays an uninterpreted function of
                             # (num_vars, concatenated blocks): both types must hand it the same arguments
